@@ -29,8 +29,12 @@ func c05build(ops []*Sx) (*flamego.Flame, bool) {
 	f.Use(flamego.Renderer()) // every other route answers through the request's Render
 	c16setup()                // files served with ETags next to the routes: first requests arrive concurrently
 	f.Use(flamego.Static(flamego.StaticOptions{Directory: filepath.Join(c16root, "pub"), Prefix: "c05static", SetETag: true}))
-	f.Use(func(c flamego.Context) {})                                      // five Use calls: length 5, capacity 8 - spare capacity again
-	f.Map(&svcA{id: 77})                                                   // resolved by handlers through the interface i1
+	f.Use(func(c flamego.Context) {}) // five Use calls: length 5, capacity 8 - spare capacity again
+	f.Map(&svcA{id: 77})              // resolved by handlers through the interface i1
+	for k := 0; k < 4; k++ {          // handlers of the built-in fast shape func() (int, string), each with its own answer
+		k := k
+		f.Get(fmt.Sprintf("/c05tea/%d", k), func() (int, string) { return 201 + k, fmt.Sprintf("FILE tea-%d", k) })
+	}
 	f.HandlerWrapper(func(h flamego.Handler) flamego.Handler { return h }) // applied once, when handlers are registered
 	// two not-found handlers, the first of the plain func(Context) kind the framework wraps into a fast invoker
 	f.NotFound(func(c flamego.Context) {}, func(c flamego.Context, t c05tok) string { return "(notfound) tok=" + string(t) })
@@ -123,6 +127,9 @@ func c05serve(f *flamego.Flame, q *Sx, tok string) string {
 		}()
 		f.ServeHTTP(w, &http.Request{Method: a[0].Bytes(), URL: &url.URL{Path: a[1].Bytes()}, Header: hdr, Proto: "HTTP/1.1"})
 		res = strings.Join(w.chunks, "")
+		if strings.HasPrefix(a[1].Bytes(), "/c05tea/") {
+			res += fmt.Sprintf(" status=%d", w.status)
+		}
 	}()
 	return res
 }
@@ -141,10 +148,12 @@ func runC05(in *Sx) *Sx {
 		return T("obs", T("invalid"))
 	}
 	// files of the static middleware, requested alongside (isolation only: serial answer = concurrent answer)
-	for _, p := range []string{"/c05static/a.txt", "/c05static/sub/b.txt", "/c05static/x", "/c05static/noindex/c.txt", "/c05static/sub/", "/c05static/a.txt"} {
+	extras := []string{"/c05static/a.txt", "/c05static/sub/b.txt", "/c05static/x", "/c05static/noindex/c.txt", "/c05static/sub/", "/c05static/a.txt",
+		"/c05tea/0", "/c05tea/1", "/c05tea/2", "/c05tea/3", "/c05tea/0", "/c05tea/1", "/c05tea/2", "/c05tea/3"}
+	for _, p := range extras {
 		reqs = append(reqs, T("req", X("GET"), X(p), T("hdrs")))
 	}
-	nroute := len(reqs) - 6
+	nroute := len(reqs) - len(extras)
 	serial := make([]string, len(reqs))
 	for i, q := range reqs {
 		serial[i] = c05serve(fa, q, fmt.Sprintf("t%d", i))
